@@ -6,23 +6,23 @@ H = []
 
 QUICK = {
     "C01": ["fub_poll_c2", "fub_poll_c2_inflight", "fub_poll_c2_handles", "fub_wake_c2", "fub_wake_c2_inflight", "fub_push_c2", "fub_poll_budget", "fub_poll_budget_many", "mb_poll_c2", "fu_cur_12_c1", "wl_fifo_c2"],
-    "C02": ["fub_poll_c2", "fub_push_c2", "fu_poll_2", "fu_push_12", "fob_poll_c2", "fu_cur_12_c1", "fu_cur_12_c0"],
+    "C02": ["fub_poll_c2", "fub_push_c2", "fu_poll_2", "fu_push_12", "fob_poll_c2", "fu_cur_12_c1", "fu_cur_12_c0", "sm_step_c3"],
     "C04": ["fob_poll_c2", "fob_poll_c2_p0", "fob_push_c2", "fo_observe_c2", "ad_bo_n2_p0", "ja_poll_n2"],
     "C05": ["fub_poll_c2", "mb_poll_c2", "ja_poll_n2", "fub_poll_c2_handles"],
-    "C06": ["fub_drop_c2", "ja_poll_n2", "tja_poll_n2", "mb_poll_c2"],
+    "C06": ["fub_drop_c2", "ja_poll_n2", "tja_poll_n2", "mb_poll_c2", "fob_drop_c2"],
     "C07": ["ja_poll_n2", "tja_poll_n2"],
-    "C08": ["fub_poll_c2", "fu_poll_2", "fu_push_12", "fu_push_2", "fu_cur_12_c0"],
+    "C08": ["fub_poll_c2", "fu_poll_2", "fu_push_12", "fu_push_2", "fu_cur_12_c0", "mu_push_12"],
     "C09": ["ad_bu_n2", "ad_bu_n3", "ad_tbu_n2", "ad_fe_n1", "ad_bo_n2_p0"],
     "C10": ["ad_bu_n2", "ad_tbu_n2", "ad_fe_n1", "ad_fe_n0", "ad_bo_n2_p0", "ad_bo_n2"],
-    "C11": ["mb_poll_c2", "mu_poll_12_c0", "mu_poll_12_c1"],
+    "C11": ["mb_poll_c2", "mu_poll_12_c0", "mu_poll_12_c1", "mu_push_12"],
     "C12": ["fub_poll_c2", "fub_wake_c2", "fub_push_c2", "mb_poll_c2", "fub_poll_budget_61"],
     "C13": ["fub_poll_c2", "fub_poll_budget", "fub_poll_budget_61", "fub_poll_budget_many", "mu_poll_12_c0", "mu_poll_12_c1", "fu_poll_2"],
     "C14": ["fub_poll_c2_quiet", "fub_wake_c2", "fub_push_c2", "fub_drop_c2", "fu_cur_12_c0", "fub_poll_budget_61"],
-    "C15": ["fub_poll_c2", "fub_push_c2", "fub_push_c0", "fob_push_c2", "fob_new", "fo_new", "fu_push_12"],
+    "C15": ["fub_poll_c2", "fub_push_c2", "fub_push_c0", "fob_push_c2", "fob_new", "fo_new", "fu_push_12", "sm_step_c3"],
     "C16": ["ad_bo_n2", "ad_tbo_n2"],
     "C17": ["fub_poll_c2", "fob_poll_c2", "fo_observe_c2", "ad_bu_n2", "ad_tbu_n2", "ad_bo_n2"],
-    "C03": ["wl_shape0_c2", "wl_shape1_c2", "wl_shape2_c2", "wl_shape3_c2", "wl_fifo_c2"],
-    "C18": ["fub_poll_c2", "fub_push_c2", "fub_wake_c2", "ja_poll_n2", "fu_push_12", "fu_poll_2", "fu_rot_124_c0", "fu_rot_124_c1", "ad_bu_n2"],
+    "C03": ["wl_shape0_c2", "wl_shape1_c2", "wl_shape2_c2", "wl_shape3_c2", "wl_fifo_c2", "wl_layout"],
+    "C18": ["fub_poll_c2", "fub_push_c2", "fub_wake_c2", "ja_poll_n2", "fu_push_12", "fu_poll_2", "fu_rot_124_c0", "fu_rot_124_c1", "ad_bu_n2", "mu_push_12"],
 }
 
 def h(name, props, tiers, unwind=6, unwindset=None, covers=(), timeout=900, mem=8, layer="model",
@@ -84,6 +84,12 @@ h("fub_drop_c2", ["C06", "C14", "C05"], QT, covers=["cover:drop_full"],
   what="FuturesUnorderedBounded<Fut>: drop from an arbitrary INV pre-state with two retained child wakers that outlive it (woken / dropped afterwards)",
   bounds="capacity 2")
 
+# ---------------------------------------------------------------- Layer S: the slot map by itself
+W_SM = ("PinSlotMap<u8>: ONE insert / remove / get with an arbitrary key (also out of range) from an arbitrary valid representation state "
+        "(any occupancy, any free-list order); the representation invariant is re-established, no other slot is disturbed")
+h("sm_step_c3", ["C02", "C15"], QT, unwind=6, covers=["cover:insert_ok", "cover:insert_refused", "cover:remove_occupied", "cover:remove_vacant_or_out_of_range"], what=W_SM, bounds="capacity 3")
+h("sm_step_c4", ["C02", "C15"], T, unwind=7, covers=["cover:insert_ok", "cover:insert_refused", "cover:remove_occupied"], what=W_SM, bounds="capacity 4")
+
 # ---------------------------------------------------------------- FuturesUnordered
 FU_POLL = ["C01", "C02", "C05", "C08", "C12", "C13", "C15", "C17", "C18"]
 W_FU = ("FuturesUnordered<Fut>: ONE poll_next from an arbitrary INV_unbounded pre-state (every group an arbitrary bounded INV state; "
@@ -124,6 +130,9 @@ h("fo_observe_c2", ["C04", "C15", "C17", "C12"], QT, covers=["cover:push_front",
 h("fob_push_c2", ["C04", "C15", "C02", "C12"], QT, covers=["cover:push_front", "cover:push_back", "cover:push_refused"],
   what="FuturesOrderedBounded<Fut>: ONE try_push_back / try_push_front from an arbitrary INV_ordered pre-state (symbolic 64-bit counters)",
   bounds="capacity 2, 1 parked output")
+h("fob_drop_c2", ["C06"], QT, covers=["cover:drop_with_running"],
+  what="FuturesOrderedBounded<TFut>: drop from an arbitrary INV_ordered pre-state with a parked (drop-counted) output: every running future and every parked output is dropped exactly once",
+  bounds="capacity 2, 1 parked output")
 h("fob_new", ["C15"], QT, covers=["cover:cap0"], panic_is_violation=True,
   what="FuturesOrderedBounded::<Fut>::new(n) for every n in 0..=2 must not panic", bounds="n <= 2")
 h("fo_new", ["C15"], QT, covers=["cover:cap0"], panic_is_violation=True,
@@ -139,6 +148,9 @@ h("mb_poll_c2_quiet", ["C14"], T, unwindset=MB_US, timeout=1200, covers=["cover:
 W_MU = ("MergeUnbounded<Src> with two groups: ONE poll_next from an arbitrary pre-state; a designated VICTIM source is queued in one group; "
         "ranking obligation: if the victim is not polled by this call it must be nearer to its turn afterwards (cursor distance, queue position)")
 h("mu_poll_12_c0", ["C13", "C11", "C01", "C18"], QT, unwindset=MB_US, timeout=1500, covers=["cover:item_from_other", "cover:pending"], what=W_MU, bounds="groups (1,2); cursor 0")
+h("mu_push_12", ["C11", "C18", "C08", "C01", "C12"], QT, covers=["cover:push_new_group", "cover:push_last_group"],
+  what="MergeUnbounded<Src>: ONE push (a source added while the merge is being consumed) from an arbitrary two-group pre-state: the last group takes it or a group of twice the capacity is appended; no source is polled, moved or dropped; allocations only for a new group",
+  bounds="groups (1,2)")
 h("mu_poll_12_c1", ["C13", "C11", "C01"], QT, unwindset=MB_US, timeout=1500, covers=["cover:item_from_other", "cover:pending"], what=W_MU, bounds="groups (1,2); cursor 1")
 
 # ---------------------------------------------------------------- adapters
@@ -194,6 +206,9 @@ for order, txt in ((0, "collection dropped first, wake_by_ref through the clone,
 h("wl_shape3_c2", ["C03", "C14"], QT, layer="real", checks="memsafe", unwind=4, unwindset=WL_US, timeout=1500, mem=14, covers=["cover:end"],
   what=W_WL + "as the lifecycle shapes, but the slot is ALREADY QUEUED when its waker is invoked by reference and then twice by value (each consumes a clone): redundant wakes still release their reference, never notify the task, and the block is released once",
   bounds="capacity 2")
+h("wl_layout", ["C03"], QT, layer="real", unwind=4, covers=["cover:cap0", "cover:cap_max"],
+  what="layout arithmetic of the REAL waker list for EVERY capacity 0..=2^32 (symbolic): header, every slot 0..=cap (the last is the queue's stub node) lie inside the allocated block, aligned, without overlapping the header; the header-pointer recovery is the inverse of the slot address",
+  bounds="capacity <= 2^32 (symbolic word), slot index symbolic")
 h("wl_shape0_c1", ["C03"], T, layer="real", checks="memsafe", unwind=4, unwindset=WL_US, timeout=1500, mem=14, covers=["cover:end"], what=W_WL + W_SH, bounds="capacity 1")
 h("wl_shape0_c3", ["C03"], T, layer="real", checks="memsafe", unwind=5, unwindset=WL_US, timeout=2400, mem=20, covers=["cover:end"], what=W_WL + W_SH, bounds="capacity 3")
 h("wl_shape2_c3", ["C03"], T, layer="real", checks="memsafe", unwind=5, unwindset=WL_US, timeout=2400, mem=20, covers=["cover:end"], what=W_WL + W_SH, bounds="capacity 3")
